@@ -10,6 +10,7 @@ import ast
 import hashlib
 import json
 import os
+import signal
 import subprocess
 import sys
 import time
@@ -322,8 +323,20 @@ def _annotations_from_source(fn_node):
     return out
 
 
+JOB_TIMEOUT_S = 20
+
+
+class JobTimeout(BaseException):
+    pass
+
+
+def _on_alarm(signum, frame):
+    raise JobTimeout()
+
+
 class Replica(object):
     def __init__(self, task):
+        signal.signal(signal.SIGALRM, _on_alarm)
         self.task = task
         self.ns = core.load_doctrans()
         self.tmp = None
@@ -350,10 +363,17 @@ class Replica(object):
             occ = self.count.get(jid, 0)
             self.count[jid] = occ + 1
             job = jobs[jid]
+            signal.alarm(JOB_TIMEOUT_S)
             try:
                 res = self.execute(job, occ)
+            except JobTimeout:
+                res = {"exception": "did not terminate within %d s" % JOB_TIMEOUT_S}
+                self.add_violation(self.task["prop"], job, "T-no-termination", "job %d (%s) did not terminate within %d s (line_length %s)" % (
+                    jid, job["kind"], JOB_TIMEOUT_S, self.task.get("line_length")), {"explicit_width": self.task.get("line_length") is not None})
             except Exception as e:
                 res = {"exception": "%s: %s" % (type(e).__name__, str(e)[:200])}
+            finally:
+                signal.alarm(0)
             payload = core.canon(res)
             self.results.append([jid, occ, hashlib.sha256(payload.encode()).hexdigest()[:20], payload if self.task.get("want_payload") else None])
         return {"results": self.results, "violations": self.violations, "probe": self.probe()}
